@@ -59,6 +59,12 @@ def hook_line(h):
         return "hswap %s %d %s %s %s" % (a_line(h[1]), h[2], o_line(h[3]), o_line(h[4]), o_line(h[5]))
     if k == "hrouter":
         return "hrouter %s %s %s" % (ops_line(h[1]), o_line(h[2]), o_line(h[3]))
+    if k == "hraw_rop":          # router-internal single hop as a hook payload: offer ask to
+        return "hraw_rop %s %s %s" % (a_line(h[1]), a_line(h[2]), o_line(h[3]))
+    if k == "hraw_rassert":      # router-internal minimum-receive assertion: asset prev min receiver
+        return "hraw_rassert %s %d %d %d" % (a_line(h[1]), h[2], h[3], h[4])
+    if k == "hraw_pdec":         # the pair's factory-only decimals update: denom d0 d1
+        return "hraw_pdec %d %d %d" % (h[1], h[2], h[3])
     return k
 
 
@@ -68,7 +74,9 @@ def hook_coq(h):
         return "(HSwap %s %s %s %s %s)" % (a_coq(h[1]), cq(h[2]), o_coq(h[3]), o_coq(h[4]), o_coq(h[5]))
     if k == "hrouter":
         return "(HRouterOps %s %s %s)" % (ops_coq(h[1]), o_coq(h[2]), o_coq(h[3]))
-    return {"hwithdraw": "HWithdraw", "hgarbage": "HGarbage"}[k]
+    # payloads that are messages of the receiving contract's execute interface but not hook messages are garbage to the model
+    return {"hwithdraw": "HWithdraw", "hgarbage": "HGarbage", "hraw_rop": "HGarbage", "hraw_rassert": "HGarbage",
+            "hraw_pdec": "HGarbage"}[k]
 
 
 def op_line(o):
@@ -404,7 +412,7 @@ def queries_coq(qs):
     return "[" + "; ".join(out) + "]"
 
 
-MONITORS = {"C06", "C10", "C01", "C02", "C03", "C04", "C05", "C07", "C09", "C11", "C12", "C13", "C14", "C16", "C17", "C20"}
+MONITORS = {"C06", "C15", "C10", "C01", "C02", "C03", "C04", "C05", "C07", "C09", "C11", "C12", "C13", "C14", "C16", "C17", "C20"}
 
 
 def replay_hist(j):
@@ -470,6 +478,12 @@ class _Cur:
             return ("hswap", self.asset(), self.num(), self.onum(), self.onum(), self.onum())
         if k == "hrouter":
             return ("hrouter", self.ops(), self.onum(), self.onum())
+        if k == "hraw_rop":
+            return (k, self.asset(), self.asset(), self.onum())
+        if k == "hraw_rassert":
+            return (k, self.asset(), self.num(), self.num(), self.num())
+        if k == "hraw_pdec":
+            return (k, self.num(), self.num(), self.num())
         return (k,)
 
 
@@ -856,6 +870,26 @@ def extreme_histories(rng, tier):
                     if 0 < a <= h.bal(lp, u):
                         h.do(("send", lp, u, p, a, ("hwithdraw",)))
         cases.append(h.finish())
+    # a deep pool of two 18-decimals assets: the first mint is capped near 1.8e19 LP (u128 product under the square root), so
+    # the supply only passes 2^128/10^18 = 3.4e20 through further provisions; burns above that size, off the 10^18 grid
+    h = Hist(3, 2, 2, 2, 2 ** 100, 1000, [18, 18], "directed-extreme", "deep 18-decimals pool, burns above 2^128/10^18")
+    created = setup_pairs(h, rng, [(("t", 2), ("t", 3)), (("n", 0), ("t", 2))], comm=3 * 10 ** 15, provide=False, native_decs=[18, 18])
+    for p in created:
+        a0, a1 = h.pair_assets(p)
+        lp = h.pair_lp(p)
+        h.do(("provide", p, USER0, funds_for([(a0, 4 * 10 ** 18), (a1, 4 * 10 ** 18 + 7)]), a0, 4 * 10 ** 18, a1, 4 * 10 ** 18 + 7, None, None))
+        r0, r1 = h.reserves(p)
+        h.do(("provide", p, USER0 + 1, funds_for([(a0, 1250 * r0 + 3), (a1, 1250 * r1 + 11)]), a0, 1250 * r0 + 3, a1, 1250 * r1 + 11, None, None))
+        h.do(("provide", p, USER0 + 2, funds_for([(a0, 77 * r0), (a1, 77 * r1)]), a0, 77 * r0, a1, 77 * r1, None, None))
+        h.do(("bank", USER0, p, [(a0[1], 12345)]) if a0[0] == "n" else ("transfer", a0[1], USER0, p, 12345))
+        b1 = h.bal(lp, USER0 + 1)
+        for a in (300 * 10 ** 18 + 5, 2000 * 10 ** 18, b1 // 3 + 1):
+            if 0 < a <= h.bal(lp, USER0 + 1):
+                h.do(("send", lp, USER0 + 1, p, a, ("hwithdraw",)))
+        b2 = h.bal(lp, USER0 + 2)
+        if b2 > 0:
+            h.do(("send", lp, USER0 + 2, p, b2, ("hwithdraw",)))
+    cases.append(h.finish())
     # lopsided pools: a supply of ~1e19 LP units against one tiny reserve, then large burns (rounding of the refund
     # is then dominated by the burn amount if it is computed in the wrong order)
     for (n0, n1) in ([(3 * 10 ** 30, 10 ** 8), (10 ** 37, 30)] if tier == "quick" else
@@ -891,6 +925,8 @@ def auth_matrix(rng, tier):
                  if (a, b) not in [(("n", 0), ("t", 2)), (("t", 2), ("t", 3))]]
         rng.shuffle(fresh)
         formers = []
+        h.do(("bank", USER0, ROUTER, [(0, 5000)]))
+        h.do(("transfer", 2, USER0, ROUTER, 3000))
         # hook origins: with LP parked at the pairs (so that a withdrawal relayed by the wrong token would have
         # something to burn), every cw20 a user holds relays a withdraw hook and a swap hook to every pair
         for q in created:
@@ -927,6 +963,12 @@ def auth_matrix(rng, tier):
                 h.do(("router_op", c, [], ("n", 0), ("t", 2), None))
                 h.do(("router_assert_min", c, ("n", 0), 0, 0, USER0))
                 h.do(("router_receive", c, USER0, 5, ("hrouter", [(("n", 0), ("t", 2))], None, None)))
+                # the contracts' internal / privileged messages smuggled in as the payload of a Receive envelope whose
+                # `sender` field the caller chooses freely (the router itself, the factory, the caller)
+                for env_sender in (ROUTER, FACTORY, c):
+                    h.do(("router_receive", c, env_sender, 5, ("hraw_rop", ("n", 0), ("t", 2), c)))
+                    h.do(("router_receive", c, env_sender, 0, ("hraw_rassert", ("n", 0), 0, 0, c)))
+                    h.do(("pair_receive", p, c, [], env_sender, 10, ("hraw_pdec", 0, 9, 9)))
                 if c != owner:
                     h.do(("fac_update_config", c, c, rng.randrange(4)))
             if phase < 2:
@@ -1268,6 +1310,17 @@ def swap_matrix(rng, tier):
                             h.do(("send", ta, u, p, a, ("hswap", named, namt, None, None, rcv)))
                         # rogue Receive
                         h.do(("pair_receive", p, u, [], u, a, ("hswap", named, namt, None, None, rcv)))
+        # valid swaps whose designated receiver is itself a contract of the system: the offered token, the other token, the
+        # LP token, the factory, the router
+        for p in created:
+            assets = h.pair_assets(p)
+            for off in assets:
+                ask = assets[1] if off == assets[0] else assets[0]
+                for rcv in [x[1] for x in assets if x[0] == "t"] + [h.pair_lp(p), FACTORY, ROUTER]:
+                    if off[0] == "t":
+                        h.do(("send", off[1], u, p, a, ("hswap", off, a, None, None, rcv)))
+                    else:
+                        h.do(("swap", p, u, [(off[1], a)], off, a, None, None, rcv))
         cases.append(h.finish())
     return cases
 
@@ -1489,6 +1542,21 @@ def guard_histories(rng, tier):
     """swaps with belief price / max spread on pairs of mixed decimals; provisions with tolerance after
     another actor moved the ratio (system level of C10, C15)"""
     cases = []
+    # pools with an extreme raw ratio on pairs whose two assets have DIFFERENT decimals (the abundant asset being the one with
+    # fewer decimals, and the other way round): provisions that are grossly outside the tolerance in one direction only
+    for (d_nat, d_tok) in ((6, 8), (6, 18), (18, 6)) if tier == "thorough" else ((6, 8), (18, 6)):
+        h = Hist(3, 2, 2, 2, 10 ** 26, 1000, [d_tok, d_tok], "directed-boundary", "slippage guard on an extreme pool, decimals %d/%d" % (d_nat, d_tok))
+        created = setup_pairs(h, rng, [(("n", 0), ("t", 2)), (("t", 3), ("n", 1))], comm=3 * 10 ** 15, provide=False, native_decs=[d_nat, d_nat])
+        for p in created:
+            a0, a1 = h.pair_assets(p)
+            big, small = 10 ** 20, 1000
+            n0, n1 = (big, small) if a0[0] == "n" else (small, big)
+            h.do(("provide", p, USER0, funds_for([(a0, n0), (a1, n1)]), a0, n0, a1, n1, None, None))
+            for mult in (5, 2, 1):
+                for tol in (10 ** 16, 5 * 10 ** 17, None):
+                    m0, m1 = (n0, n1 * mult) if a0[0] == "n" else (n0 * mult, n1)
+                    h.do(("provide", p, USER0 + 1, funds_for([(a0, m0), (a1, m1)]), a0, m0, a1, m1, tol, None))
+        cases.append(h.finish())
     for rep in range({"quick": 3, "thorough": 30}[tier]):
         h = Hist(3, 2, 2, 3, 10 ** 24, 1000, [rng.choice([0, 6, 18]), rng.choice([6, 18])], "directed-boundary", "guards at system level")
         created = setup_pairs(h, rng, [(("n", 0), ("t", 2)), (("t", 2), ("t", 3)), (("n", 0), ("n", 1))], comm=3 * 10 ** 15)
@@ -1515,6 +1583,25 @@ def guard_histories(rng, tier):
                     h.do(("swap", p, u, [(a0[1], amount)], a0, amount, bp, ms, None))
                 else:
                     h.do(("send", a0[1], u, p, amount, ("hswap", a0, amount, bp, ms, None)))
+        # trades as large as the offer reserve and larger: the spread takes more than half of the ideal return; with only a
+        # spread limit given, any limit at or above the actual ratio must let the swap through
+        for p in created[(rep + 1) % 3:(rep + 1) % 3 + 2]:
+            for i in (0, 1):
+                offer = h.pair_assets(p)[i]
+                r = h.reserves(p)
+                for mult in (1, 3):
+                    amount = min(h.abal(offer, USER0 + 2), r[i] * mult + 1)
+                    if amount <= 0 or r[i] == 0:
+                        continue
+                    q = h.query("sim %d %s %d" % (p, a_line(offer), amount))
+                    if not q or q[0] + q[1] == 0:
+                        continue
+                    ratio = q[1] * D // (q[0] + q[1])
+                    for ms in (ratio + 1, (ratio + D) // 2, D, ratio - 1 if ratio > 0 else 0):
+                        if offer[0] == "n":
+                            h.do(("swap", p, USER0 + 2, [(offer[1], amount)], offer, amount, None, ms, None))
+                        else:
+                            h.do(("send", offer[1], USER0 + 2, p, amount, ("hswap", offer, amount, None, ms, None)))
         for _ in range({"quick": 30, "thorough": 50}[tier]):
             p = rng.choice(h.pairs())
             u = rng.choice(h.users())
